@@ -22,8 +22,7 @@ from __future__ import annotations
 import functools
 import os
 
-from pyoda_time import CalendarSystem, LocalDate
-from pyoda_time._compatibility._culture_info import CultureInfo
+from pyoda_time import CalendarSystem
 from pyoda_time.text import InvalidPatternError
 
 from vf.checks import c07
